@@ -851,7 +851,8 @@ func (w *World) callSites(c *Contract, d *Directive) []*ast.CallExpr {
 	n := 0
 	ast.Inspect(c.Body, func(nd ast.Node) bool {
 		if ce, ok := nd.(*ast.CallExpr); ok {
-			if exprText(w.Fset, ce.Fun) == d.CallText {
+			if exprText(w.Fset, ce.Fun) == d.CallText ||
+				strings.HasSuffix(d.CallText, ")") && normCallText(exprText(w.Fset, ce)) == d.CallText {
 				n++
 				if d.CallOrd == 0 || d.CallOrd == n {
 					out = append(out, ce)
